@@ -104,12 +104,14 @@ def run(chk, tier):
             ("rows P=5 (extension-field gates)", "MCGates_p5", 4, 900),
             ("rows P=5 (coset interpolation, Poseidon twin)", "MCGates_p5h", 4, 900),
             ("joint uniqueness P=5", "MCGates_uniq", 4, 900),
-            ("degree along lines P=17", "MCGates_deg", 2, 600),
-            ("catalogue", "MCGates_cat", 2, 600)]
+            ("degree along lines P=17 + catalogue", "MCGates_degcat", 3, 600)]
     if thorough:
         jobs += [("rows P=5 thorough", "MCGates_p5t", 6, 1700), ("rows P=7 thorough", "MCGates_p7t", 4, 1700),
                  ("rows P=13 thorough", "MCGates_p13t", 4, 1700), ("rows P=17 thorough", "MCGates_p17t", 6, 1700)]
-    cjobs = [("canary " + nm, "MCGates_canary_" + nm, 2, 600) for nm, _ in CANARIES]
+    # quick: the three mutants named in the design + one per twin + the degree mutant
+    quick_canaries = ("ExpoLastIntermediate", "RaBool", "BaseSumRange", "PoseidonOut", "CosetValue", "DegreeLowered")
+    canaries = [c for c in CANARIES if thorough or c[0] in quick_canaries]
+    cjobs = [("canary " + nm, "MCGates_canary_" + nm, 2, 600) for nm, _ in canaries]
     with ThreadPoolExecutor(max_workers=4) as ex:
         results = dict(ex.map(_tlc, jobs + cjobs))
     for name, _, _, _ in jobs:
@@ -118,13 +120,13 @@ def run(chk, tier):
         if not r.ok:
             raise ToolError("specification Gates violates %s in '%s' (spec-level inconsistency):\n%s" % (
                 r.violated, name, "\n".join(r.raw.splitlines()[-30:])))
-    for nm, what in CANARIES:
+    for nm, what in canaries:
         r = results["canary " + nm]
         chk.canary("spec-mutant found by TLC: %s" % what, r.violated is not None)
     chk.exhaustive = True
 
     # ---- B: catalogue -> real gates ----------------------------------------------------------
-    cat = common.tagged(results["catalogue"].prints, "REPLAY")
+    cat = common.tagged(results["degree along lines P=17 + catalogue"].prints, "REPLAY")
     if len(cat) < 400:
         raise ToolError("MCGates printed only %d catalogue entries" % len(cat))
     # deterministic order (TLC's print order depends on worker scheduling)
